@@ -79,3 +79,45 @@ def affine_forwarder(run, F):
                     run.violation(f['qname'], 'direct-forward_set_value', '%s:%s' % (f['file'], e['line']),
                                   '%s calls forward_set_value() directly instead of starting its completion_forwarder: the receiver is completed on whatever thread ran this code, although the sender declares is_always_scheduler_affine' % f['qname'].replace('unifex::', ''))
     if n == 0: raise Broken('no operation with a completion_forwarder member found')
+
+
+@rule('R-HOP-UNSTOPPABLE', ['C15', 'C16', 'C11'], floor=2)
+def hop_unstoppable(run, F):
+    """the receiver with which an operation hops back to its consumer's scheduler *after it has won its completion election* (completion_forwarder's receiver, the v2 event's reschedule receiver: the classes constructed where `schedule(get_scheduler(...))` is connected) answers get_stop_token with unstoppable_token: otherwise a stop-aware scheduler cancels the hop and the operation completes with done although it already owns the lock / the payload was transferred"""
+    from .c12_queries import receiver_records
+    recv = {r['qname']: r for r in receiver_records(F)}
+    def short(q):
+        p = q.split('::'); return p[-2] if p[-1] == 'type' and len(p) > 1 else p[-1]
+    hops = set()
+    for g in F.funcs:
+        if not g.get('lambda'): continue
+        evs = [e for _, _, e in events(g)]
+        if not any(e['k'] == 'call' and e['callee'].get('name') == 'get_scheduler' for e in evs): continue
+        if not any(e['k'] == 'call' and e['callee'].get('name') == 'schedule' for e in evs): continue
+        for e in evs:
+            if e['k'] in ('construct', 'initlist'):
+                t = e.get('type', '')
+                best = None
+                for q, r in recv.items():
+                    if r['_family'] != g['_family'] and not q.startswith(g['_family']): continue
+                    if re.search(r'\b' + re.escape(short(q)) + r'\b', t):
+                        if best is None or len(q) > len(best): best = q
+                if best: hops.add(best)
+    if len(hops) < 2: raise Broken('scheduler-hop receivers not found (%s)' % sorted(hops))
+    for q in sorted(hops):
+        r = recv[q]
+        tis = [f for f in F.by_record.get(q, []) if f['name'] == 'tag_invoke' and f.get('params') and 'get_stop_token' in f['params'][0]['type']]
+        run.inst('%s:%s %s' % (r['file'], r['line'], q), 'hop receiver answers get_stop_token with unstoppable_token', key=q)
+        ok = False
+        for f in tis:
+            for _, _, e in events(f):
+                if e['k'] in ('construct', 'initlist', 'ret') and 'unstoppable_token' in (e.get('type') or ''): ok = True
+            # `return {};` of a function declared to return unstoppable_token
+            for mm in r['methods']:
+                pass
+        if not ok and tis:
+            # return type is not in the facts: accept an overload whose body has no call at all (it can only `return {}`)
+            ok = any(not any(e['k'] == 'call' for _, _, e in events(f)) for f in tis)
+        if not ok:
+            run.violation(q, 'hop-stoppable', '%s:%s' % (r['file'], r['line']),
+                          '%s is the receiver of a scheduler hop made after the operation won its completion election, but it forwards get_stop_token to the consumer: a stop-aware scheduler completes the hop with done, so the operation reports done although it already owns the resource (e.g. the async_mutex stays locked forever)' % q.replace('unifex::', ''))
